@@ -299,9 +299,11 @@ def sort_partial_derivatives(expr):
     return tuple(ls)
 
 #==============================================================================
-@cacheit
 def get_index_derivatives(expr):
     """
+    returns a new dictionary {'x': nx, 'y': ny, 'z': nz} with the number of
+    derivatives in each direction (not cached: the dictionary is mutable and
+    every caller must get its own)
     """
     coord = ['x','y','z']
 
